@@ -400,6 +400,9 @@ def all_tasks():
 
 def property_config(tasks, select):
     P = {}
-    P["C08"] = dict(decisive=select(tasks, ("C08.", "C17.copy")) + select(tasks, ("CT.has_", "CT.get_block")), chain=[], harness=dict(extra=[("harness.container_checks2", "run_c08")]))
-    P["C17"] = dict(decisive=select(tasks, ("C17.", "C08.open", "C08.__enter__", "W.Entry", "S.Entry")), chain=[], harness=dict(extra=[("harness.container_checks2", "run_c17")]))
+    from .tasks_container import PRIMS
+    callees = select(tasks, ("W.Entry", "B.Entry", "RT.Entry", "S.Entry", "DATE.", "C13.BTSString.", "CT._get_block_class")) + PRIMS(tasks, select)
+    P["C08"] = dict(decisive=select(tasks, ("C08.", "C17.copy")) + select(tasks, ("CT.has_", "CT.get_block")), chain=callees, harness=dict(extra=[("harness.container_checks2", "run_c08")]))
+    P["C17"] = dict(decisive=select(tasks, ("C17.", "C08.open", "C08.__enter__", "W.Entry", "S.Entry")), chain=[c for c in callees if not c.startswith(("W.Entry", "S.Entry"))],
+                    harness=dict(extra=[("harness.container_checks2", "run_c17")]))
     return P
